@@ -749,7 +749,7 @@ Section HonestRoundTrip.
   Lemma provider_format_ok : vbid rules_validators (to_engine (of_wire wB)) = true.
   Proof.
     clear signB_recovers signP_recovers signP_answers pkB pkP.
-    destruct (CB.accepted_bid_is_eip712 K crB r accepted bn_int64 ds_int64 de_int64 (BA.SenderReturns []) None)
+    destruct (CB.accepted_sent_fields K crB r accepted bn_int64 ds_int64 de_int64 (BA.SenderReturns []) None)
       as (f & Hc & Hall).
     destruct (CB.accepted_forward r accepted (BA.SenderReturns []) None) as (Hc' & _). rewrite Hc' in Hc.
     injection Hc as <-. destruct (Hall view D rn sent) as (E1 & E2 & E3 & E4 & E5 & E6 & _ & E8 & _).
@@ -832,7 +832,7 @@ Section HonestRoundTrip.
     pose proof (first_write_in _ _ _ Hw) as Hin.
     destruct (order_node K addr evsP h c Hin) as (Hst & amt & Hp & Hs).
     split; [exact Hst|]. exists amt. split; [|exact Hs].
-    destruct (CB.accepted_bid_is_eip712 K crB r accepted bn_int64 ds_int64 de_int64 (BA.SenderReturns []) None)
+    destruct (CB.accepted_sent_fields K crB r accepted bn_int64 ds_int64 de_int64 (BA.SenderReturns []) None)
       as (f & Hc & Hall).
     destruct (CB.accepted_forward r accepted (BA.SenderReturns []) None) as (Hc' & _). rewrite Hc' in Hc.
     injection Hc as <-. destruct (Hall view D rn sent) as (_ & _ & E3 & _).
